@@ -485,3 +485,10 @@ def r14(rr, repo):
 def r15(rr, repo):
     from .c04 import r10 as c04r10
     c04r10(rr, repo)
+
+
+@rule('C03.R16', "a frame a join already holds is not thrown away by a routine re-entry into recv(): the sets kept by a timed-out call are dropped only when the caller really moved on to a newer id "
+                 "(entry form and exit discipline of the expected id - shares C01.R9)")
+def r16(rr, repo):
+    from .c01 import r9 as c01r9
+    c01r9(rr, repo)
